@@ -55,7 +55,8 @@ unsafe impl UnsizedTypePtr for RemainingBytesPtr {
         let addr = self.0.addr();
         let is_advanced = addr >= *cursor;
         *cursor = addr;
-        is_advanced && range.contains(&addr)
+        // RemainingBytes may be empty, in which case it can sit at the very end of the range.
+        is_advanced && (range.start..=range.end).contains(&addr)
     }
 }
 
